@@ -297,98 +297,60 @@ def rule_r4(ctx: Ctx) -> None:
         ctx.check(good, b.short + "." + name, txt[:80], "public query %s must be derived from %s" % (name, sorted(needs)), fn.where())
 
 
+def _residue_operand(ctx: Ctx, values: Any, log: List[Any]) -> AObj:
+    """an operand that stands for the set `values`: min / max / modulo(m) answer for that set; every modulo query is logged"""
+    o = AObj(ctx.cls(SYM + ".Operator"), ctx)
+    vals = frozenset(values)
+    o.__dict__["min"] = min(vals)
+    o.__dict__["max"] = max(vals)
+
+    def mod(m: Any) -> Any:
+        log.append(m)
+        if not isinstance(m, int) or isinstance(m, bool) or m < 1:
+            raise Unfoldable("child asked for residues modulo %r" % (m,))
+        return {x % m for x in vals}
+
+    o.__dict__["modulo"] = Recorder("modulo", mod, [])
+    o.__dict__["expand"] = Recorder("expand", lambda: set(vals), [])
+    return o
+
+
 def rule_r5(ctx: Ctx) -> None:
-    ctx.rule("C01.R5", "residue homomorphism: children are queried modulo the divisor or an lcm with it; every element returned by modulo() is reduced modulo the divisor or taken from a child's residues for the divisor", min_instances=6)
-    for c in operators(ctx):
-        if c.name == "MemoizationOperator":
+    """the residue homomorphism, observed: every operator is constructed over operands that log the divisors they are asked for
+    and is asked for its residues on a grid of divisors (the helpers it uses, the loops it runs and the names of its fields are
+    immaterial)"""
+    ctx.rule("C01.R5", "residue homomorphism, on operators constructed over logging operands: each operand is asked for residues modulo a multiple of the divisor only, and every residue returned is reduced modulo the divisor", min_instances=5)
+    sets = [{0}, {1, 5}, {3, 4, 9}, {8, 16, 40}]
+    divisors = [1, 2, 3, 5, 8, 12]
+    for c in concrete_operators(ctx):
+        if c.name == "MemoizationOperator" or c.name not in OPERATOR_ROLES:
             continue
-        fn = c.methods.get("modulo")
-        if fn is None:
-            continue
-        d = fn.params[1]
-        node = ctx.inl(fn)
-        local: Dict[str, ast.AST] = {}
-        for st in walk_no_nested(node):
-            if isinstance(st, ast.Assign) and len(st.targets) == 1 and isinstance(st.targets[0], ast.Name):
-                local[st.targets[0].id] = st.value
-
-        def is_divisor_multiple(e: ast.AST) -> bool:
-            s = norm(e)
-            if s == d:
-                return True
-            if isinstance(e, ast.Name) and e.id in local:
-                return is_divisor_multiple(local[e.id])
-            if isinstance(e, ast.Call) and (dotted(e.func) or "").split(".")[-1] in ("least_common_multiple", "lcm"):
-                return any(norm(a) == d for a in e.args)
-            return False
-
-        bad_q = [norm(cl) for cl in calls_in(node, include_nested=True) if isinstance(cl.func, ast.Attribute) and cl.func.attr == "modulo" and not (len(cl.args) == 1 and is_divisor_multiple(cl.args[0]))]
-
-        def reduced(e: ast.AST) -> bool:
-            if isinstance(e, ast.BinOp) and isinstance(e.op, ast.Mod) and norm(e.right) == d:
-                return True
-            if isinstance(e, ast.Call) and isinstance(e.func, ast.Attribute) and e.func.attr == "modulo" and len(e.args) == 1 and norm(e.args[0]) == d:
-                return True
-            return False
-
-        def set_reduced(e: ast.AST, depth: int = 0) -> bool:
-            """the expression is a set all of whose elements are reduced"""
-            if depth > 4:
-                return False
-            if isinstance(e, ast.SetComp):
-                return reduced(e.elt)
-            if isinstance(e, ast.Set):
-                return all(reduced(x) or (isinstance(x, ast.Constant) and x.value == 0) for x in e.elts)  # 0 % d == 0
-            if isinstance(e, ast.Call) and dotted(e.func) == "set" and len(e.args) == 1:
-                a = e.args[0]
-                if isinstance(a, ast.Call) and dotted(a.func) == "map" and isinstance(a.args[0], ast.Lambda):
-                    return reduced(a.args[0].body)
-                if isinstance(a, (ast.GeneratorExp, ast.ListComp)):
-                    return reduced(a.elt)
-                return set_reduced(a, depth + 1)
-            if reduced(e):
-                return True  # a child's residue set for the same divisor
-            if isinstance(e, ast.BinOp) and isinstance(e.op, ast.BitOr):
-                return set_reduced(e.left, depth + 1) and set_reduced(e.right, depth + 1)
-            if isinstance(e, ast.Call) and isinstance(e.func, ast.Attribute) and e.func.attr == "union":
-                # set().union(*(S for ...)) / A.union(B, C): every operand is a reduced set
-                base = e.func.value
-                base_ok = norm(base) in ("set()", "frozenset()", "set") or set_reduced(base, depth + 1)
-                ops_ok = True
-                for a in e.args:
-                    if isinstance(a, ast.Starred):
-                        g = a.value
-                        if isinstance(g, (ast.GeneratorExp, ast.ListComp, ast.SetComp)):
-                            ops_ok = ops_ok and set_reduced(g.elt, depth + 1)
-                        elif isinstance(g, ast.Call) and dotted(g.func) == "map" and isinstance(g.args[0], ast.Lambda):
-                            ops_ok = ops_ok and set_reduced(g.args[0].body, depth + 1)
-                        else:
-                            ops_ok = False
-                    else:
-                        ops_ok = ops_ok and set_reduced(a, depth + 1)
-                return base_ok and ops_ok
-            if isinstance(e, ast.Call) and dotted(e.func) in ("frozenset", "sorted", "list", "tuple") and len(e.args) == 1:
-                return set_reduced(e.args[0], depth + 1)
-            if isinstance(e, ast.Name):
-                # accumulator: initialised empty, fed only with reduced elements / reduced sets
-                inits = [st.value for st in walk_no_nested(node) if isinstance(st, ast.Assign) and any(isinstance(t, ast.Name) and t.id == e.id for t in st.targets)]
-                if not inits or not all(norm(i) in ("set()",) or set_reduced(i, depth + 1) for i in inits):
-                    return False
-                for st in walk_no_nested(node):
-                    if isinstance(st, ast.Call) and isinstance(st.func, ast.Attribute) and isinstance(st.func.value, ast.Name) and st.func.value.id == e.id:
-                        if st.func.attr == "add" and not reduced(st.args[0]):
-                            return False
-                        if st.func.attr == "update" and not set_reduced(st.args[0], depth + 1):
-                            return False
-                    if isinstance(st, ast.AugAssign) and isinstance(st.target, ast.Name) and st.target.id == e.id:
-                        if not (isinstance(st.op, ast.BitOr) and set_reduced(st.value, depth + 1)):
-                            return False
-                return True
-            return False
-
-        rets = [r.value for r in walk_no_nested(node) if isinstance(r, ast.Return) and r.value is not None]
-        bad_r = [norm(r) for r in rets if not set_reduced(r)]
-        ctx.check(not bad_q and not bad_r and bool(rets), fn.short, "child queries %s; returns %s" % ("ok" if not bad_q else bad_q, [norm(r)[:50] for r in rets]), "residues mod d are determined by residues mod a multiple of d and by nothing coarser; results are residues mod d", fn.where(), {"bad_child_queries": bad_q, "unreduced_returns": bad_r})
+        roles = OPERATOR_ROLES[c.name]
+        if "values" in roles:
+            continue  # a leaf has no operand to ask
+        bad_q, bad_r = [], []
+        n = 0
+        params = [2, 3, 7] if "k" in roles else ([1, 4, 6, 8] if "alignment" in roles else [None])
+        for vals in sets:
+            for par in params:
+                for d in divisors:
+                    log: List[Any] = []
+                    kids = [_residue_operand(ctx, vals, log), _residue_operand(ctx, {2, 7}, log)]
+                    actual = {"child": kids[0], "children": kids, "k": par, "alignment": par}
+                    me = _operator_instance(ctx, c, actual)
+                    got = _ask(ctx, me, "modulo", d)
+                    n += 1
+                    if any(not isinstance(m, int) or m % d != 0 for m in log) or not log:
+                        bad_q.append({"divisor": d, "parameter": par, "operands asked modulo": log[:6]})
+                    try:
+                        unreduced = [r for r in got if not (isinstance(r, int) and 0 <= r < d)]
+                    except TypeError:
+                        unreduced = [repr(got)[:40]]
+                    if unreduced:
+                        bad_r.append({"divisor": d, "parameter": par, "operand set": sorted(vals), "not reduced": unreduced[:4]})
+        ctx.count(n)
+        fn = ctx.repo.lookup_method(c, "modulo")
+        ctx.check(not bad_q and not bad_r, (fn.short if fn else c.short + ".modulo"), "operands asked modulo multiples of the divisor; residues reduced (%d evaluations)" % n, "residues mod d are determined by residues mod a multiple of d and by nothing coarser; results are residues mod d", fn.where() if fn else c.module.relpath, {"bad_child_queries": bad_q[:3], "unreduced_returns": bad_r[:3]})
 
 
 def rule_r6(ctx: Ctx) -> None:
@@ -550,12 +512,31 @@ OPERATOR_ROLES = {
 
 def _operator_instance(ctx: Ctx, c: ClassInfo, actual: Dict[str, Any]) -> AObj:
     """the instance the constructor chain (super() flattened, helpers expanded) builds for the given arguments"""
+    def operand(v: Any) -> Any:
+        if isinstance(v, _MinMax):
+            o = AObj(ctx.cls(SYM + ".Operator"), ctx)
+            o.__dict__["min"], o.__dict__["max"] = v.min, v.max
+            return o
+        if isinstance(v, list):
+            return [operand(x) for x in v]
+        return v
+
     try:
-        return construct(ctx, c, *[actual[r] for r in OPERATOR_ROLES[c.name]], hook=_quiet_hook)
+        return construct(ctx, c, *[operand(actual[r]) for r in OPERATOR_ROLES[c.name]], hook=_quiet_hook)
     except Unfoldable as ex:
         raise AnalysisError("%s cannot be constructed over abstract operands: %s" % (c.qualname, ex))
     except Raised as ex:
         raise AnalysisError("%s rejects the operands %r: %s" % (c.qualname, actual, ex.cls_name))
+
+
+class _MinMax:
+    """(min, max) of an operand of R8; turned into an instance of the abstract operator class when the operator is built"""
+
+    def __init__(self, lo: int, hi: int):
+        self.min, self.max = lo, hi
+
+    def __repr__(self) -> str:
+        return "<operand min=%d max=%d>" % (self.min, self.max)
 
 
 def _analytic_samples(cname: str) -> List[Dict[str, Any]]:
@@ -564,10 +545,10 @@ def _analytic_samples(cname: str) -> List[Dict[str, Any]]:
     b = _sample_ints(24, 0, 64, 11)
     for i in range(24):
         lo, hi = sorted((a[i], a[(i * 7 + 3) % 24]))
-        child = Sym(min=lo, max=hi)
+        child = _MinMax(lo, hi)
         lo2, hi2 = sorted((b[i], b[(i * 5 + 1) % 24]))
         lo3, hi3 = sorted((a[(i + 9) % 24], b[(i + 4) % 24]))
-        children = [child, Sym(min=lo2, max=hi2), Sym(min=lo3, max=hi3)][: 1 + i % 3]
+        children = [child, _MinMax(lo2, hi2), _MinMax(lo3, hi3)][: 1 + i % 3]
         out.append({"child": child, "children": children, "k": b[(i * 3) % 24] % 9, "alignment": 1 + a[(i * 11) % 24] % 17, "values": frozenset(a[j % 24] for j in range(i, i + 1 + i % 4))})
     return out
 
@@ -668,6 +649,64 @@ def rule_r8(ctx: Ctx) -> None:
     ctx.check(region_ok, pi.short, "alignment < 1 rejected", "a padding needs a positive alignment", pi.where(), nontrivial=False)
 
 
+def rule_r10(ctx: Ctx) -> None:
+    """two-level compositions through the public API over small concrete leaf sets: what a composition *of compositions* answers
+    (constructors may look at what they are given - fold, flatten, unwrap - and must still mean the same set)"""
+    import itertools as _it
+
+    ctx.rule("C01.R10", "nested compositions (every ordered pair of pad / repeat / repeat_range / concatenate / unite over small leaf sets, built through BitLengthSet's own methods): min, max, the residues for a grid of divisors and the expansion are those of the mathematically defined set [a bounded grid, evaluated from the source; not a proof for all trees]", min_instances=1)
+    b = ctx.cls(BLS)
+
+    def define(op: Tuple[str, Any], xs: frozenset) -> frozenset:
+        kind, par = op
+        if kind == "pad":
+            return frozenset(-(-x // par) * par for x in xs)
+        if kind == "repeat":
+            return frozenset(sum(c) for c in _it.combinations_with_replacement(sorted(xs), par))
+        if kind == "range":
+            return frozenset(sum(c) for j in range(par + 1) for c in _it.combinations_with_replacement(sorted(xs), j))
+        if kind == "concat":
+            return frozenset(x + y for x in xs for y in par)
+        return frozenset(xs | par)
+
+    def spell(op: Tuple[str, Any], inner: str) -> str:
+        kind, par = op
+        return {"pad": "%s.pad_to_alignment(%r)", "repeat": "%s.repeat(%r)", "range": "%s.repeat_range(%r)", "concat": "(%s + BitLengthSet(%r))", "unite": "(%s | BitLengthSet(%r))"}[kind] % (inner, set(par) if isinstance(par, frozenset) else par)
+
+    ops = [("pad", 4), ("pad", 6), ("pad", 8), ("repeat", 2), ("repeat", 3), ("range", 2), ("concat", frozenset({2, 9})), ("unite", frozenset({4}))]
+    leaves = [frozenset({1, 5, 7, 13, 20}), frozenset({0, 8})]
+    divisors = (1, 2, 3, 4, 6, 8, 12)
+    bad = []
+    n = 0
+    for leaf in leaves:
+        for o1 in ops:
+            for o2 in ops:
+                src = spell(o2, spell(o1, "BitLengthSet(%r)" % set(leaf)))
+                want = define(o2, define(o1, leaf))
+                obj = _eval_bls(ctx, src, {})
+                if isinstance(obj, tuple):
+                    bad.append({"composition": src, "found": obj})
+                    continue
+                env = {"s": obj}
+                got = {"min": _eval_bls(ctx, "s.min", env), "max": _eval_bls(ctx, "s.max", env)}
+                exp = {"min": min(want), "max": max(want)}
+                for d in divisors:
+                    r = _eval_bls(ctx, "set(s %% %d)" % d, env)
+                    got["%% %d" % d] = frozenset(r) if isinstance(r, (set, frozenset, list)) else r
+                    exp["%% %d" % d] = frozenset(x % d for x in want)
+                if len(want) <= 400:
+                    r = _eval_bls(ctx, "set(s)", env)
+                    got["expansion"] = frozenset(r) if isinstance(r, (set, frozenset, list)) else r
+                    exp["expansion"] = want
+                n += len(exp)
+                wrong = sorted(k for k in exp if got.get(k) != exp[k])
+                if wrong:
+                    k0 = wrong[0]
+                    bad.append({"composition": src, "query": k0, "found": sorted(got[k0]) if isinstance(got[k0], frozenset) else got[k0], "expected": sorted(exp[k0]) if isinstance(exp[k0], frozenset) else exp[k0]})
+    ctx.count(n)
+    ctx.check(not bad, b.short, "%d two-level compositions x (min, max, %d divisors, expansion)" % (len(leaves) * len(ops) ** 2, len(divisors)), "the analytic answers of a nested composition are those of the mathematically defined set", b.module.relpath, bad[:4])
+
+
 def rule_r9(ctx: Ctx) -> None:
     from . import approx_keys
 
@@ -685,5 +724,6 @@ def run(ctx: Ctx) -> None:
     ctx.attempt(rule_r7, ctx)
     ctx.attempt(rule_r8, ctx)
     ctx.attempt(rule_r9, ctx)
+    ctx.attempt(rule_r10, ctx)
     ctx.assume("itertools.product / combinations_with_replacement, math.lcm and set arithmetic are exact (trusted stdlib)")
     ctx.undecided("that the per-operator residue formulas equal the mathematical definition for all operator trees and divisors (number theory over unbounded integers); validate_numerically is a run-time self-check")
